@@ -181,7 +181,7 @@ func pairPostRun(env *fw.Env, d *fw.Driver, id string, classify func(m progMeta,
 			}
 			switch {
 			case ref.Stdout != got.Stdout:
-				fail(m, "run:stdout-differs", "stdout differs at %s", firstDiffLine(ref.Stdout, got.Stdout))
+				fail(m, "run:stdout-differs"+diffTag(m, ref.Stdout, got.Stdout), "stdout differs at %s", firstDiffLine(ref.Stdout, got.Stdout))
 			case ref.Code != got.Code:
 				fail(m, "run:exit-status-differs", "exit status: reference %d, xgo %d\nreference stderr: %s\nxgo stderr: %s", ref.Code, got.Code, clipS(ref.Stderr, 400), clipS(got.Stderr, 400))
 			case ref.PanicLine() != got.PanicLine():
@@ -194,8 +194,12 @@ func pairPostRun(env *fw.Env, d *fw.Driver, id string, classify func(m progMeta,
 			agg.Cover["programs-executed"]++
 			want := m.Expect[1:]
 			agg.Cover["stdout-lines-compared"] += strings.Count(want, "\n")
-			if got.Stdout != want {
-				fail(m, "run:stdout-differs", "stdout differs from the expected text at %s\nstderr: %s", firstDiffLine(want, got.Stdout), clipS(got.Stderr, 400))
+			if tags := diffTags(m, want, got.Stdout); len(tags) > 0 && got.Code == 0 {
+				for _, t := range tags {
+					fail(m, "run:stdout-differs:"+t.tag, "line %d differs from the model:\n  expected: %s\n  got     : %s", t.line, clipS(t.want, 300), clipS(t.got, 300))
+				}
+			} else if got.Stdout != want {
+				fail(m, "run:stdout-differs"+diffTag(m, want, got.Stdout), "stdout differs from the expected text at %s\nstderr: %s", firstDiffLine(want, got.Stdout), clipS(got.Stderr, 400))
 			} else if got.Code != 0 {
 				fail(m, "run:exit-status", "exit status %d, stderr: %s", got.Code, clipS(got.Stderr, 600))
 			} else {
@@ -278,4 +282,64 @@ func pairSite(info map[string]string, what string) string {
 		return "probe:" + id + ":" + what
 	}
 	return what
+}
+
+// diffTag: programs whose output lines start with "<tag>: " (Info["linetags"]) name the violation site after the
+// tag of the first line that differs.
+func diffTag(m progMeta, want, got string) string {
+	if m.Info["linetags"] == "" {
+		return ""
+	}
+	lw, lg := strings.Split(want, "\n"), strings.Split(got, "\n")
+	for i := 0; i < len(lw) || i < len(lg); i++ {
+		var x, y string
+		if i < len(lw) {
+			x = lw[i]
+		}
+		if i < len(lg) {
+			y = lg[i]
+		}
+		if x != y {
+			if x == "" {
+				x = y
+			}
+			if j := strings.Index(x, ": "); j > 0 && j < 80 {
+				return ":" + x[:j]
+			}
+			return ":untagged-line"
+		}
+	}
+	return ""
+}
+
+type tagDiff struct {
+	tag, want, got string
+	line           int
+}
+
+// diffTags compares tagged outputs line by line (same number of lines required) and returns the first
+// difference of every distinct tag.
+func diffTags(m progMeta, want, got string) []tagDiff {
+	if m.Info["linetags"] == "" {
+		return nil
+	}
+	lw, lg := strings.Split(want, "\n"), strings.Split(got, "\n")
+	if len(lw) != len(lg) {
+		return nil
+	}
+	var out []tagDiff
+	seen := map[string]bool{}
+	for i := range lw {
+		if lw[i] != lg[i] {
+			tag := "untagged-line"
+			if j := strings.Index(lw[i], ": "); j > 0 && j < 80 {
+				tag = lw[i][:j]
+			}
+			if !seen[tag] {
+				seen[tag] = true
+				out = append(out, tagDiff{tag, lw[i], lg[i], i + 1})
+			}
+		}
+	}
+	return out
 }
